@@ -28,6 +28,7 @@ KNOWN_BS = "kepler:history_stale_bs_nbody_ode"
 KNOWN_GJ = "kepler:history_stale_gravity_jacobi"
 KNOWN_KU = "kepler:keep_unsynchronized_shortened_last_step"
 KNOWN_N0 = "kepler:empty_simulation_step_crash"
+KNOWN_REFUSED = "kepler:refused_step_still_runs_part2"
 KNOWN_HANG = "kepler:hyperbolic_newton_overflow_nontermination"
 
 
@@ -615,6 +616,9 @@ def run(ctx):
             errors[integ] = errors.get(integ, 0) + 1
             errors.setdefault("first_" + integ, r["error"])
             continue
+        if r.get("notes"):
+            violations.append((KNOWN_REFUSED, {"how": "history op error_step (tools/c03_driver.py)", "case": case, "notes": r["notes"]},
+                               "a WHFast step refused by reb_integrator_whfast_init is not a no-op: %s" % r["notes"][0][:160]))
         s0 = [float.fromhex(v) for v in r["state"][0]]
         b0 = [float.fromhex(v) for v in r["before"][0]]
         for lane, (meta, rel, mu_eff, dt) in enumerate(metas):
